@@ -133,13 +133,44 @@ def ENCODE(case):
 PROBE = (0, 1, 2, 3)
 
 
+def _own(lst):
+    """take a copy of a list the mapping handed out, then scribble on the original as a caller may: a returned list is the
+    caller's own, writing to it must change neither the mapping nor what any mapping returns later"""
+    out = list(lst)
+    if isinstance(lst, list) and "<scribbled by the caller>" not in lst[-1:]:     # (once: a shared list must not grow for ever)
+        lst.insert(0, ("<scribbled>", "<scribbled>"))
+        lst.append("<scribbled by the caller>")
+    return out
+
+
 def views(m):
-    return [[[k, v] for k, v in m.multi_items()],
+    return [[[k, v] for k, v in _own(m.multi_items())],
             sorted(m.keys()),
             len(m),
             [_getitem(m, k) for k in PROBE],
             [k in m for k in PROBE],
-            [list(m.getlist(k)) for k in PROBE]]
+            [_own(m.getlist(k)) for k in PROBE]]
+
+
+def _shape(items, salt):
+    """the same pairs in another legal shape of Iterable[Tuple[K, V]] (list, tuple, generator, iterator, zip, map,
+    another multi-value mapping), chosen from the text of the case"""
+    import zlib
+    from baize.datastructures import MultiMapping
+    k = zlib.crc32(repr((items, salt)).encode("utf-8", "surrogatepass")) % 7
+    if k == 0:
+        return list(items)
+    if k == 1:
+        return tuple(items)
+    if k == 2:
+        return (p for p in items)
+    if k == 3:
+        return iter(list(items))
+    if k == 4:
+        return zip([p[0] for p in items], [p[1] for p in items])
+    if k == 5:
+        return map(tuple, [list(p) for p in items])
+    return MultiMapping(list(items))
 
 
 def _getitem(m, k):
@@ -165,7 +196,7 @@ def apply_op(m, o):
             m.setlist(o[1], list(o[2]))
             r = []
         elif name == "poplist":
-            r = ["l", list(m.poplist(o[1]))]
+            r = ["l", _own(m.poplist(o[1]))]
         elif name == "pop":
             r = ["v", m.pop(o[1])]
         elif name == "popd":
@@ -196,7 +227,7 @@ def impl(case):
         return [text, [[k, v] for k, v in QueryParams(text).multi_items()]]
     if case[0] == "imm":
         items = [tuple(p) for p in case[1]]
-        return [views(MultiMapping(items)), views(QueryParams(items)), views(FormData(items))]
+        return [views(MultiMapping(_shape(items, 1))), views(QueryParams(_shape(items, 2))), views(FormData(_shape(items, 3)))]
     if case[0] == "alias":
         # one list object handed to four mappings; only the mutable one is operated on: the others, and the
         # caller's list, must stay what they were
@@ -211,7 +242,7 @@ def impl(case):
             out.append(["source-list-changed", [list(p) for p in src]])
         return out
     items = [tuple(p) for p in case[1]]
-    m = MutableMultiMapping(items)
+    m = MutableMultiMapping(_shape(items, repr(case[2])))
     out = [views(m)]
     for o in case[2]:
         r = apply_op(m, o)
